@@ -262,7 +262,7 @@ def run_case(case):
         pred = s0.reshape(-1) + B @ (2.0 * a - 0.5 * b)
         ea = float(np.max(np.abs(sab.reshape(-1) - pred) / (np.abs(pred) + np.tile(dd, 1) + 1e-300)))
         obs["max_affinity_dev"] = ea
-        if not ea <= 1e-9:
+        if not ea <= 1e-7:  # B is itself a difference quotient of float64 samples (measured up to 3e-9 on 1500 cases)
             viols.append(util.viol("affine_in_draws", f"sample is not affine in the draws ({ea:.3g})", tags=tags))
         del sa
     # (4) shapes with the real generator
